@@ -342,6 +342,14 @@ def gen_bn():
         emit(8, forks, b32(1) + b32(3) + g2, ERR, "pairing G1 off curve")
         emit(8, forks, enc_g1(BG1) + b32(1) + b32(2) + b32(3) + b32(4), ERR, "pairing G2 off curve")
         emit(8, forks, enc_g1(BG1) + b32(BP) + g2[32:], ERR, "pairing G2 coordinate >= p")
+        # a pair whose one point is the point at infinity still has its other point validated
+        emit(8, forks, enc_g1(None) + b32(1) + b32(1) + b32(1) + b32(1), ERR, "pairing G1 = infinity, G2 off curve")
+        emit(8, forks, b32(1) + b32(3) + enc_g2(None), ERR, "pairing G1 off curve, G2 = infinity")
+        emit(8, forks, enc_g1(None) + b32(BP) + g2[32:], ERR, "pairing G1 = infinity, G2 coordinate >= p")
+        emit(8, forks, enc_g1(BG1) + g2 + enc_g1(None) + b32(1) + b32(2) + b32(3) + b32(4), ERR, "second pair: G1 = infinity, G2 off curve")
+        base, per = pg[f]
+        emit(8, forks, enc_g1(None) + g2, ok(base + per, b32(1)), "pairing (infinity, G2)")
+        emit(8, forks, enc_g1(BG1) + enc_g2(None), ok(base + per, b32(1)), "pairing (G1, infinity)")
 
 # ------------------------------------------------------------------ 0x09 BLAKE2F
 IV = [0x6A09E667F3BCC908, 0xBB67AE8584CAA73B, 0x3C6EF372FE94F82B, 0xA54FF53A5F1D36F1, 0x510E527FADE682D1, 0x9B05688C2B3E6C1F, 0x1F83D9ABFB41BD6B, 0x5BE0CD19137E2179]
@@ -502,6 +510,11 @@ def gen_bls():
         one = sum(a * b for a, b in combo) % LR == 0
         emit(0x0f, forks, inp, ok(32600 * len(combo) + 37700, b32(1 if one else 0)), "bls pairing %s" % (combo,))
     emit(0x0f, forks, b"", ERR, "bls pairing empty input")
+    emit(0x0f, forks, enc_l1(None) + fp64(1) + fp64(2) + fp64(3) + fp64(4), ERR, "bls pairing G1 = infinity, G2 off curve")
+    emit(0x0f, forks, fp64(1) + fp64(3) + enc_l2(None), ERR, "bls pairing G1 off curve, G2 = infinity")
+    emit(0x0f, forks, enc_l1(None) + g2, ok(32600 + 37700, b32(1)), "bls pairing (infinity, G2)")
+    emit(0x0f, forks, g + enc_l2(None), ok(32600 + 37700, b32(1)), "bls pairing (G1, infinity)")
+    emit(0x0c, forks, enc_l1(None) + b32(5) + fp64(1) + fp64(3) + b32(0), ERR, "g1msm second point off curve with scalar 0")
     emit(0x0f, forks, (g + g2)[:-1], ERR, "bls pairing length 383")
     # map to curve: only gas, output length and input validation are decided here
     for v in (0, 1, 2, LP - 1):
